@@ -141,7 +141,7 @@ def run(ctx):
                 if o and o[-1].startswith("livelock"):
                     idx = len(o) - 1
                     ctx.violation({"kind": "livelock"},
-                                  {"case": chunk[idx], "verdict": "livelock: a thread never returned from lock()/unlock() although every holder released (threads free-running for 10 s)",
+                                  {"case": chunk[idx], "verdict": "livelock: a thread never returned from lock()/unlock() although every holder released (threads free-running for 20 s)",
                                    "trace_tail": o[-1].split(" :: ", 1)[-1].split(" ; ")[-60:], "how_to_replay": "echo '%s' | %s" % (chunk[idx], exe)})
                     o = o[:-1]
                 else:
